@@ -35,6 +35,7 @@ type SessCase struct {
 type SessStep struct {
 	Method    string // GetSTH | AddChain | AddPreChain
 	UseOther  bool   // submissions: hand in Other instead of Chain
+	Rekey     bool   // submissions: the final issuer in the chain is a same-name certificate with another key
 	Timestamp uint64
 	TreeSize  uint64
 	Seed      uint32
@@ -92,6 +93,7 @@ func genSess(t *rapid.T) SessCase {
 				st.Ext = []byte{byte(rapid.IntRange(0, 3).Draw(t, "extb"))}
 			}
 			st.DeadlineS = rapid.IntRange(1, 120).Draw(t, "deadline")
+			st.Rekey = rapid.IntRange(0, 2).Draw(t, "rekey") == 0
 		}
 		// earlier steps of the same method that could be replayed
 		var cands []int
@@ -103,6 +105,12 @@ func genSess(t *rapid.T) SessCase {
 		if len(cands) > 0 && rapid.IntRange(0, 3).Draw(t, "replay") != 0 {
 			st.Replay = rapid.SampledFrom(cands).Draw(t, "replayof") + 1
 			st.Whole = rapid.IntRange(0, 3).Draw(t, "whole") == 0
+			if rapid.Bool().Draw(t, "sameanswer") {
+				// everything the signature covers directly is as in the replayed call: what differs (if
+				// anything) is only what the client derives from the chain it hands in
+				p := c.Steps[st.Replay-1]
+				st.Timestamp, st.TreeSize, st.Seed, st.Ext, st.UseOther = p.Timestamp, p.TreeSize, p.Seed, p.Ext, p.UseOther
+			}
 		}
 		ns := rapid.SampledFrom([]int{1, 1, 1, 1, 2}).Draw(t, "script")
 		for k := 0; k < ns; k++ {
@@ -125,7 +133,7 @@ func genSess(t *rapid.T) SessCase {
 func (c SessCase) stepCase(st SessStep) Case {
 	sc := Case{Method: st.Method, KeyKind: c.KeyKind, KeyIdx: c.KeyIdx, Temporal: c.Temporal && retrying(st.Method), Chain: c.Chain, Other: c.Other,
 		Timestamp: st.Timestamp, TreeSize: st.TreeSize, Seed: st.Seed, Ext: st.Ext, Script: st.Script, DeadlineS: st.DeadlineS,
-		KeyPEM: c.KeyPEM, NoDER: c.NoDER, DecoyIdx: c.DecoyIdx, Siblings: c.Siblings}
+		KeyPEM: c.KeyPEM, NoDER: c.NoDER, DecoyIdx: c.DecoyIdx, Siblings: c.Siblings, Rekey: st.Rekey}
 	if st.UseOther {
 		sc.Chain, sc.Other = c.Other, c.Chain
 	}
@@ -175,7 +183,10 @@ func checkSess(t *testing.T, c SessCase) (v harness.Verdict) {
 			if st.Method == "GetSTH" {
 				same = same && p.TreeSize == st.TreeSize && p.Seed == st.Seed
 			} else {
-				same = same && p.UseOther == st.UseOther && string(p.Ext) == string(st.Ext)
+				same = same && p.UseOther == st.UseOther && string(p.Ext) == string(st.Ext) && (p.Rekey == st.Rekey || st.Method == "AddChain")
+				if p.Rekey != st.Rekey {
+					v.Class("replay:across-rekeyed-issuer")
+				}
 			}
 			switch {
 			case st.Whole:
@@ -258,6 +269,6 @@ func sessClients(c SessCase, s *scene, rt *scriptRT, cl clients) clients {
 // Session is the multi-call half of C12.
 var Session = harness.Define(harness.Opts{
 	Name:  "session",
-	Rule:  "2-4 calls (GetSTH, AddChain or AddPreChain, or a mix) on ONE client instance holding the log key; every call has its own truthful answer (timestamps / tree sizes / roots / extensions from small pools so that honest republications and changed values both occur; submissions alternate between two chains) under 0-2 mutations, and three quarters of the later calls of a method are answered with the DigitallySigned bytes (a quarter of those: the whole body) of an earlier answer. Each call is judged by the per-call oracle of the client sub-property. Non-trivial: a replayed signature over different signed fields",
+	Rule:  "2-4 calls (GetSTH, AddChain or AddPreChain, or a mix) on ONE client instance holding the log key; every call has its own truthful answer (timestamps / tree sizes / roots / extensions from small pools so that honest republications and changed values both occur; submissions alternate between two chains and between the issuer certificate and a same-name twin with another key) under 0-2 mutations, and three quarters of the later calls of a method are answered with the DigitallySigned bytes (a quarter of those: the whole body) of an earlier answer. Each call is judged by the per-call oracle of the client sub-property. Non-trivial: a replayed signature over different signed fields",
 	Quick: 2500, Thorough: 10000,
 }, genSess, checkSess)
